@@ -46,7 +46,15 @@ def distinctIds (t : T) : Bool := decide (t.splits.map (·.e.id)).Nodup
 def parserIds (t : T) : Bool :=
   (t.splits.map (·.e.id)) == (List.range t.splits.length).map (fun (i : Nat) => ((i : Nat) : Int))
 
+/-- two distinct tip names that a sloppy comparison takes for one: equal once lower-cased, their zeros,
+    blanks and separators dropped (`t1`/`t01`, `a`/`A`, `x1`/`x_1`, `1`/`1.0` …) -/
+def lookAlike (names : List String) : Bool :=
+  let norm (s : String) : String :=
+    String.ofList ((s.toList.map Char.toLower).filter fun c => c.isAlphanum && c != '0')
+  !decide ((names.map norm).Nodup) && decide names.Nodup
+
 def treeTags (r : T) (bs : List T) : List String :=
+  tagIf (lookAlike r.tipNames) "look-alike-tip-names" ++
   tagIf r.rooted "ref-rooted" ++ tagIf (!r.rooted) "ref-unrooted" ++
   tagIf (r.kids.any (·.2.isLeaf)) "ref-roottip" ++
   tagIf (r.rooted && r.kids.any (·.2.isLeaf)) "ref-rooted-roottip" ++
@@ -217,10 +225,17 @@ def stepCase (kind th pos share rd bds out after : String) : Verdict :=
     `k` trees is what the call must return (oracle, when that prefix is inside the quantifier);
     outcome, supports, annotated tree and `Progress()` afterwards against `fbpS` / `tbeS`. -/
 def cancelCase (kind th ks p0s rd bds out after progs : String) : Verdict :=
-  match T.undump rd, parseDumps bds, ks.toNat?, p0s.toNat?, progs.toInt? with
-  | some r, some bs, some k, some p0, some prog =>
+  -- `async<µs>`: Cancel() arrived at an unknown moment (also in the middle of a tree); the call is judged on
+  -- the number of trees it reports as finished itself, `Progress() - p0`
+  let async := ks.startsWith "async"
+  match T.undump rd, parseDumps bds, (if async then some 0 else ks.toNat?), p0s.toNat?, progs.toInt? with
+  | some r, some bs, some k0, some p0, some prog =>
     let a? := if after == "" then none else T.undump after
     if after != "" && a?.isNone then bad "C10.cancel after dump" else
+    if async && (prog < (p0 : Int) || prog > ((p0 + bs.length : Nat) : Int)) then
+      ⟨.tie, ["cancel", "cancel-async"], "Progress() is " ++ progs ++ " after a call on " ++ toString bs.length ++ " trees that started at " ++ p0s⟩ else
+    let k := if async then (prog - (p0 : Int)).toNat else k0
+    let ks := if async then toString k ++ " (asynchronously)" else ks
     let pre := bs.take k
     let uniq := specUniq r && pre.all specUniq
     let wf := specWf r && pre.all specWf
@@ -228,7 +243,7 @@ def cancelCase (kind th ks p0s rd bds out after progs : String) : Verdict :=
     let ids := idsInRange r
     let thN : Int := th.toInt?.getD 1
     let isF := kind == "fbp"
-    let tags := ["cancel", "cancel-" ++ kind, "threads=" ++ th] ++
+    let tags := ["cancel", "cancel-" ++ kind, "threads=" ++ th] ++ tagIf async "cancel-async" ++
       tagIf (k == 0) "cancel-before-start" ++ tagIf (0 < k && k < bs.length) "cancel-mid-run" ++
       tagIf (bs.length ≤ k) "never-cancelled" ++ tagIf (p0 > 0) "supporter-reused" ++
       tagIf (((a?.map supsOf).getD []).any between) "nontrivial" ++ tagIf mismatch "mismatch" ++
@@ -409,10 +424,10 @@ def parseOutItems (s : String) : Option (List (String × String)) :=
     `stdout`, `-` or left out (harness/c10/cliout.go): every tree that was written, wherever it went,
     carries the definition's supports / mean distances (oracle); where it went, in which order, and the
     head of the log are the model's (`stdoutItems` …, `logHeaderOK`). -/
-def outCase (which outSel rawSel logSel th rd bds inP bootP outP exit so fo ro logs : String) : Verdict :=
+def outCase (which outSel rawSel logSel th rd bds inP bootP outP exit so fo ro logs mids : String) : Verdict :=
   match T.undump rd, parseDumps bds, parseOutItems so, parseOutItems fo, parseOutItems ro, parseStrList logs,
-        unescape inP, unescape bootP, unescape outP with
-  | some r, some bs, some sOut, some fOut, some rOut, some logLines, some inPath, some bootPath, some outArg =>
+        unescape inP, unescape bootP, unescape outP, parseStrList mids with
+  | some r, some bs, some sOut, some fOut, some rOut, some logLines, some inPath, some bootPath, some outArg, some midLines =>
     let isT := which == "tbe" || which == "booster"
     let thN : Int := th.toInt?.getD 1
     let tags := ["cli-out", "cli-out-" ++ which, "out=" ++ outSel, "log=" ++ logSel] ++ tagIf isT ("raw=" ++ rawSel) ++
@@ -452,17 +467,19 @@ def outCase (which outSel rawSel logSel th rd bds inP bootP outP exit so fo ro l
           ⟨.tie, tags, "-o file holds " ++ toString (fOut.map (·.1)) ++ ", model " ++ toString (outFileItems outSel)⟩
         else if rOut.map (·.1) != rawFileItems isT rawSel then
           ⟨.tie, tags, "-r file holds " ++ toString (rOut.map (·.1)) ++ ", model " ++ toString (rawFileItems isT rawSel)⟩
-        else if logSel == "file" && !logHeaderOK isT inPath bootPath outArg thN logLines then
-          ⟨.tie, tags, "log file: " ++ toString logLines⟩
+        else if !logHeaderOK isT inPath bootPath outArg thN logLines then
+          ⟨.tie, tags, "log (" ++ logSel ++ "): " ++ toString logLines⟩
+        else if midLines != progressLines isT logSel thN bs.length then
+          ⟨.tie, tags, "log (" ++ logSel ++ ") between its head and its last line: " ++ toString midLines ++ ", model " ++ toString (progressLines isT logSel thN bs.length)⟩
         else ⟨.pass, tags ++ tagIf (all.any fun it => it.1 == "sup" && ((T.undump it.2).map (fun a => (supsOf a).any between)).getD false) "nontrivial", ""⟩
-  | _, _, _, _, _, _, _, _, _ => bad "C10.out fields"
+  | _, _, _, _, _, _, _, _, _, _ => bad "C10.out fields"
 
 def handle (op : String) (f : List String) : Verdict :=
   match op, f with
   | "log", [rd, bds, cs, out, raws, taxas, brs] => logCase "lib" "abr" rd bds cs out raws taxas brs none
   | "logx", [mode, opts, rd, bds, cs, out, raws, taxas, brs, after] => logCase mode opts rd bds cs out raws taxas brs (some after)
-  | "out", [which, outSel, rawSel, logSel, th, rd, bds, inP, bootP, outP, exit, so, fo, ro, logs] =>
-    outCase which outSel rawSel logSel th rd bds inP bootP outP exit so fo ro logs
+  | "out", [which, outSel, rawSel, logSel, th, rd, bds, inP, bootP, outP, exit, so, fo, ro, logs, mids] =>
+    outCase which outSel rawSel logSel th rd bds inP bootP outP exit so fo ro logs mids
   | "cancel", [kind, th, ks, p0s, rd, bds, out, after, progs] => cancelCase kind th ks p0s rd bds out after progs
   | "step", [kind, th, pos, share, rd, bds, out, after, _session] => stepCase kind th pos share rd bds out after
   | "cli", [th, refItems, bootItems, fo, fa, to, ta] => cliCase th refItems bootItems fo fa to ta
